@@ -107,21 +107,41 @@ func c08pipeModel(c *Ctx, ruleMirror, ruleHop, ruleState string) {
 				return []oval{mk("fwd"), mk("inv"), oIface{}}, true
 			}
 		}
-		// the datum shift: func(*datum, *datum, x, y, z float64) (x, y, z float64, error)
-		if sig.Recv() == nil && sig.Params().Len() == 5 && sig.Results().Len() == 4 && c.P.Decl(f) != nil && c.P.DeclPkg(f) == c.P.Pkg("proj") {
+		// the datum shift: func(*datum, *datum, x, y[, z] float64) (x, y[, z] float64, error)
+		if n := sig.Params().Len(); sig.Recv() == nil && (n == 4 || n == 5) && sig.Results().Len() == n-1 && c.P.Decl(f) != nil && c.P.DeclPkg(f) == c.P.Pkg("proj") {
 			_, p0 := sig.Params().At(0).Type().(*types.Pointer)
 			_, p1 := sig.Params().At(1).Type().(*types.Pointer)
-			if p0 && p1 && isFloat64(sig.Params().At(2).Type()) && isFloat64(sig.Results().At(2).Type()) {
+			if p0 && p1 && isFloat64(sig.Params().At(2).Type()) && isFloat64(sig.Results().At(0).Type()) {
 				sl, dl := p.labelOf(args[0]), p.labelOf(args[1])
-				x, ok1 := symOf(args[2])
-				y, ok2 := symOf(args[3])
-				z, ok3 := symOf(args[4])
-				if !ok1 || !ok2 || !ok3 {
-					return []oval{oTop{"datum shift of a non-symbolic position"}, oTop{"?"}, oTop{"?"}, oIface{}}, true
+				var ord []poly
+				for _, a := range args[2:] {
+					q, ok := symOf(a)
+					if !ok {
+						out := make([]oval, n-1)
+						for i := range out {
+							out[i] = oTop{"datum shift of a non-symbolic position"}
+						}
+						out[n-2] = oIface{}
+						return out, true
+					}
+					ord = append(ord, q)
 				}
-				p.shifts = append(p.shifts, c08shift{sl, dl, x, y, z})
+				z := poly{}
+				if len(ord) > 2 {
+					z = ord[2]
+				}
+				p.shifts = append(p.shifts, c08shift{sl, dl, ord[0], ord[1], z})
 				tag := sl + ">" + dl
-				return []oval{oSym{symAtom("shx_"+tag, x, y, z)}, oSym{symAtom("shy_"+tag, x, y, z)}, oSym{symAtom("shz_"+tag, x, y, z)}, oIface{}}, true
+				// a height of zero is no argument: the operation is named by what it is given
+				named := []poly{ord[0], ord[1]}
+				if len(z) != 0 {
+					named = append(named, z)
+				}
+				out := []oval{oSym{symAtom("shx_"+tag, named...)}, oSym{symAtom("shy_"+tag, named...)}}
+				if n == 5 {
+					out = append(out, oSym{symAtom("shz_"+tag, named...)})
+				}
+				return append(out, oIface{}), true
 			}
 		}
 		return inner(f, recv, args)
@@ -190,8 +210,7 @@ func c08pipeModel(c *Ctx, ruleMirror, ruleHop, ruleState string) {
 			lon = lon.add(symMul(a.pm, deg2rad), 1)
 		}
 		tag := a.label + ">" + b.label
-		zero := poly{}
-		lon2, lat2 := symAtom("shx_"+tag, lon, lat, zero), symAtom("shy_"+tag, lon, lat, zero)
+		lon2, lat2 := symAtom("shx_"+tag, lon, lat), symAtom("shy_"+tag, lon, lat)
 		if b.pm != nil {
 			lon2 = lon2.add(symMul(b.pm, deg2rad), -1)
 		}
